@@ -17,13 +17,13 @@ exec(open(os.path.join(HERE, "tools", "claims.py")).read())
 # rules added after the first version of tools/claims.py (seed rounds 5-8), one clause each
 EXTRA = {
     "C01": " The BIT STRING of every signature arm holds exactly what the signer returned (only the signing call, its error conversion, the random source and the buffer it fills take part in the value).",
-    "C03": " The Name importer: multi-valued RDNs refused (cardinality model over any spelling, also counts taken after items were consumed), UTF-8 decoding required only under the UTF-8/ASCII string tags, attribute types through the inverse of to_oid.",
+    "C03": " The Name importer: multi-valued RDNs refused (cardinality model over any spelling, also counts taken after items were consumed), UTF-8 decoding required only under the UTF-8/ASCII string tags, attribute types through the inverse of to_oid, values stored unaltered (no trimming / case folding / lossy decoding).",
     "C04": " The certificate version is the constant v3 on every path (DEFAULT v1 is never encoded).",
     "C07": " The iPAddress octet converter is a pure conversion chain (4 octets -> that IPv4 address, 16 -> that IPv6 address, other lengths an error).",
     "C08": " The CRL's authority key identifier goes through KeyIdMethod::derive (pre-specified ids unchanged, digests cut to 20 octets).",
     "C09": " No pre-encoded (raw) element is computed from a time field; every alternative of the value whose year selects the form is UTC-normalised or taken only when the offset is UTC.",
     "C10": " Every SET / SET OF element is written on exactly the paths on which its element writer was obtained (also through IMPLICIT re-tagging); panic sites of finite-domain functions are discharged by exhaustive evaluation.",
-    "C11": " KeyPair::der_bytes is, per key kind, the key object's own public_key() unmodified; the signing arms as in C01; from_oid selects on equality of the whole arc sequence.",
+    "C11": " KeyPair::der_bytes is, per key kind, the key object's own public_key() unmodified; the signing arms as in C01; from_oid selects on equality of the whole arc sequence; under aws-lc-rs the RSA parser is chosen by the container kind (PKCS#8 vs PKCS#1).",
     "C15": " The to-be-signed call graph includes the local Iterator::next impls that for-loops drive.",
     "C16": " KeyIdMethod::derive, the CA importer and der_bytes are checked in all three builds (K1/K2/K3).",
     "C17": " The EKU converter has no rejecting path of its own; DnType OID tables, SAN and iPAddress converters, string alphabets/sinks as for generation.",
